@@ -90,7 +90,7 @@ def operand_shapes(tier):
     """[(tag, text)] with {N} for a number"""
     out = [('r32', 'eax'), ('r32b', 'ebx'), ('r32c', 'ecx'), ('r16', 'bx'), ('r8', 'cl'), ('r8h', 'ah'), ('imm', '{N}'), ('sreg', 'es'), ('sreg2', 'fs'),
            ('mm', 'mm1'), ('xmm', 'xmm2'), ('st', 'st(1)'), ('st0', 'st'), ('cr', 'cr0'), ('dr', 'dr1')]
-    mems = MEMS if tier == 'thorough' else ['[ebx]', '[ebp+{N}]', '[ebx+esi*4+{N}]', '[{N}]', '[esp+{N}]', '[esi*4+{N}]', '[ebx-{N}]']
+    mems = MEMS if tier == 'thorough' else ['[ebx]', '[ebp+{N}]', '[ebx+esi*4+{N}]', '[{N}]', '[esp+{N}]', '[esi*4+{N}]', '[ebx-{N}]', '[ebx+ebx*2+{N}]']
     for sz in (SIZES if tier == 'thorough' else ['BYTE PTR', 'WORD PTR', 'DWORD PTR', 'QWORD PTR']):
         for m in mems:
             out.append(('m%s:%s' % (sz.split()[0].lower(), m.replace('{N}', 'N')), '%s %s' % (sz, m)))
